@@ -337,6 +337,12 @@ def r_dirmode(prog, tier):
     return obs, {}
 
 
+def root_name_(e):
+    while isinstance(e, (ast.Attribute, ast.Subscript)):
+        e = e.value
+    return e.id if isinstance(e, ast.Name) else None
+
+
 def r_symtarget(prog, tier):
     obs = []
     f = prog.func('transform', 'punctuation_symetrify')
@@ -353,8 +359,18 @@ def r_symtarget(prog, tier):
         q = resolve(f, e.q, e.node)
         ok = None
         why = 'target `%s` not recognised' % q
-        if tok and q == tok + '.parent':
-            ok, why = True, 'the partner goes into `%s.parent`, the constituent of the paired token under consideration' % tok
+        # the paired token may be a component of the loop variable (a field of a record, an element of a pair)
+        toks = set([tok]) if tok else set()
+        if tok:
+            for nm_ in f.locals:
+                dv_ = [v_ for (_, v_) in name_defs(f, nm_) if isinstance(v_, ast.AST)]
+                if len(dv_) == 1 and isinstance(dv_[0], (ast.Attribute, ast.Subscript)) and root_name_(dv_[0]) == tok:
+                    toks.add(nm_)
+                    toks.add(unparse(dv_[0]))
+        if tok and q in [t_ + '.parent' for t_ in toks]:
+            ok, why = True, 'the partner goes into `%s`, the constituent of the paired token under consideration' % q
+        elif tok and q and q.endswith('.parent') and root_name_(ast.parse(q, mode='eval').body) == tok:
+            ok, why = None, 'target `%s` is reached through the loop variable in a way this rule does not follow' % q
         elif tok and q and q.endswith('.parent') and q != tok + '.parent':
             ok, why = False, 'the partner is attached to `%s`, not to the constituent that directly contains the paired ' \
                              'token `%s`' % (q, tok)
@@ -427,6 +443,37 @@ def r_rootscan(prog, tier):
             ok, why = False, 'the root is searched only among `%s`' % it
     obs.append(Ob('R-ROOTSCAN', f.fq, 'the root of a TIGER-XML sentence is the parentless node among all its nodes', ok, why,
                   construct='rootscan', line=f.node.lineno))
+    # edges are linked after every node of the sentence exists (an <nt> may refer to an <nt> that comes later in the file),
+    # and only <edge> elements are edges (<secedge> elements sit next to them)
+    links = [n for n in cfg.eval_nodes() if n.kind == 'stmt' and isinstance(n.ast, ast.Assign)
+             and isinstance(n.ast.targets[0], ast.Attribute) and n.ast.targets[0].attr == 'parent' and n.loops]
+    for ln in links[:1]:
+        inner = cfg.nodes[ln.loops[-1]]
+        it = unparse(inner.ast.iter) if inner.kind == 'iter' else ''
+        sel_ok = "findall('edge')" in it or "iter('edge')" in it or "iterfind('edge')" in it
+        plain_children = inner.kind == 'iter' and isinstance(inner.ast.iter, ast.Name) and len(ln.loops) >= 2 \
+            and unparse(cfg.nodes[ln.loops[-2]].ast.target) == inner.ast.iter.id
+        obs.append(Ob('R-ROOTSCAN', f.fq, 'only <edge> elements are followed as edges', True if sel_ok else (False if plain_children else None),
+                      'edges selected by name (`%s`)' % it[:40] if sel_ok else
+                      '`for ... in %s` follows every child element of the <nt>: a <secedge> is taken for a primary edge and the sentence '
+                      'is rejected with "more than one incoming edge"' % it if plain_children else 'edge selection `%s` not recognised' % it[:40],
+                      construct='edge-select', line=inner.lineno))
+        # creation of the non-terminals and linking: not in one and the same loop over the <nt> elements
+        outer = ln.loops[0]
+        creates = [n for n in cfg.eval_nodes() if n.kind == 'stmt' and outer in n.loops and isinstance(n.ast, ast.Assign)
+                   and isinstance(n.ast.value, ast.Call) and prog.callee(n.ast.value, f) == ('trees', 'Tree.__init__')]
+        lookups = [n for n in cfg.eval_nodes() if outer in n.loops and inner.id in n.loops and n.kind == 'stmt'
+                   and table and any(isinstance(x, ast.Subscript) and isinstance(x.value, ast.Name) and x.value.id == table
+                                     and isinstance(x.ctx, ast.Load) for x in ast.walk(n.ast))]
+        if creates and lookups and "findall('nt')" in unparse(cfg.nodes[outer].ast.iter):
+            obs.append(Ob('R-ROOTSCAN', f.fq, 'edges are resolved when all nodes of the sentence exist', False,
+                          'the loop over the <nt> elements creates a node (line %d) and resolves its edges in `%s` (line %d) in the same '
+                          'pass: an edge to a non-terminal that is listed later is a KeyError' % (
+                              creates[0].lineno, table, lookups[0].lineno), construct='edge-after-nodes', line=lookups[0].lineno))
+        elif lookups:
+            obs.append(Ob('R-ROOTSCAN', f.fq, 'edges are resolved when all nodes of the sentence exist', True,
+                          'linking runs in a loop of its own, after the loops that create the nodes', construct='edge-after-nodes',
+                          line=lookups[0].lineno))
     return obs, {}
 
 
@@ -575,6 +622,70 @@ def r_leafguard(prog, tier):
             else:
                 obs.append(Ob('R-LEAFGUARD', f.fq, 'every node, tokens included, has its label examined for a collapsed chain', True,
                               'no return comes before the search for `+`', construct='leaf-uncollapse', line=f.node.lineno))
+    # the in-order oracle closes every node exactly once: PJ-<label> and REDUCE are emitted outside every loop
+    try:
+        f = prog.func('transitions', '_inorder')
+    except Unrecognised:
+        f = None
+    if f is not None:
+        cfg = f.cfg
+        for m in cfg.eval_nodes():
+            if m.kind == 'stmt' and isinstance(m.ast, ast.Expr) and isinstance(m.ast.value, ast.Call) \
+                    and unparse(m.ast.value.func).endswith('.append') and m.ast.value.args:
+                txt = unparse(m.ast.value.args[0])
+                for tag in ('REDUCE', 'PJ-'):
+                    if tag in txt:
+                        n += 1
+                        once = not m.loops and cfg.postdominates(m.id, cfg.entry)
+                        obs.append(Ob('R-LEAFGUARD', f.fq, 'the in-order oracle emits %s once per node' % tag.rstrip('-'),
+                                      True if once else (False if m.loops else None),
+                                      'outside every loop, on every path' if once else
+                                      '`%s` sits inside `%s`: it is emitted once per further child - never for a unary node, too often '
+                                      'for a node with three or more children' % (unparse(m.ast)[:50],
+                                                                                  unparse(cfg.nodes[m.loops[-1]].ast).split('\n')[0][:40])
+                                      if m.loops else 'conditional', construct='inorder-once:' + tag, line=m.lineno))
+    # collapsing: the data of the only child are taken over only when that child is a token (no children at all)
+    try:
+        f = prog.func('transform', '_collapse_unary_chains')
+    except Unrecognised:
+        f = None
+    if f is not None:
+        cfg = f.cfg
+        for m in cfg.eval_nodes():
+            if m.kind == 'stmt' and isinstance(m.ast, ast.Assign) and unparse(m.ast.targets[0]) == "%s.data['num']" % f.params[0]:
+                from ..linear import norm_compare
+                bound = None
+                P_ = f.params[0]
+                own = ('trees.children(%s)' % P_, 'children(%s)' % P_, '%s.children' % P_)
+                gnames = set()
+                for nm_ in f.locals:
+                    dv_ = [v_ for (_, v_) in name_defs(f, nm_)]
+                    if dv_ and all(isinstance(v_, ast.Call) and unparse(v_.func).split('.')[-1] == 'children' and unparse(v_) not in own
+                                   for v_ in dv_):
+                        gnames.add(nm_)
+
+                def _about_grandchildren(nf_):
+                    at_ = nf_[1][0][0]
+                    inner_ = at_[4:-1]
+                    return inner_ in gnames or ('children(' in inner_ and inner_ not in own)
+                for a in cfg.assumes_at(m.id):
+                    if isinstance(getattr(a, 'owner', None), ast.While):
+                        continue            # the loop condition is about the node itself
+                    nf = norm_compare(f, a.ast, a.pol) if isinstance(a.ast, ast.Compare) else None
+                    if nf and len(nf[1]) == 1 and nf[1][0][0].startswith('len(') and not _about_grandchildren(nf):
+                        continue
+                    # sum(coef * atom) <= c over one atom len(<grandchildren>)
+                    if nf and nf[0] == 'le' and len(nf[1]) == 1 and nf[1][0][1] == 1 and nf[1][0][0].startswith('len('):
+                        bound = nf[2] if bound is None else min(bound, nf[2])
+                    if nf and nf[0] == 'eq' and len(nf[1]) == 1 and nf[1][0][0].startswith('len('):
+                        bound = nf[2] if bound is None else min(bound, nf[2])
+                if bound is not None:
+                    n += 1
+                    obs.append(Ob('R-LEAFGUARD', f.fq, 'the token data are taken over only from a child without children', bound <= 0,
+                                  'under `len(...) == 0`' if bound <= 0 else
+                                  'the block runs for an only child with up to %d child(ren) of its own: in a chain of three nodes '
+                                  'the num / word of an inner node are copied (KeyError on trees whose inner nodes have no number)' % bound,
+                                  construct='collapse-token', line=m.lineno))
     # the top-down oracle walks every node: a sentence of one token can still have unary nodes above the token
     f = prog.func('transitions', 'topdown')
     cfg = f.cfg
